@@ -156,6 +156,7 @@ class Case(object):
     def __init__(self, rng, disk_total=None, root_reserve=0, **kw):
         from allmydata.storage.server import StorageServer
         install_virtual_time()
+        reset_clock()
         self.tmp = tempfile.mkdtemp(prefix="vf-")
         self.storedir = os.path.join(self.tmp, "storage")
         self.nodeid = bytes(rng.getrandbits(8) for _ in range(20))
@@ -204,6 +205,14 @@ def make_server(tmp, **kw):
     install_virtual_time()
     nodeid = kw.pop("nodeid", None) or os.urandom(20)
     return StorageServer(os.path.join(tmp, "storage"), nodeid, clock=env.reactor, **kw)
+
+
+def reset_clock():
+    """Every case starts at env.EPOCH: cases are independent of how far earlier
+    cases advanced the (process-global) virtual clock, and lease expiry stamps
+    stay inside their 4-byte field however many cases one process runs."""
+    cancel_timers()
+    env.reactor.rightNow = env.EPOCH
 
 
 def cancel_timers():
